@@ -35,7 +35,10 @@ RULE = ('measure cases = two-qubit density matrices: random of rank 1..4, rank-d
         'Inputs come as complex128 and as float64 arrays (real states: A A^T/tr, real pure states, real separable mixtures), '
         'C-contiguous, Fortran-ordered and as strided views; the functions are called in a different order for every state; '
         'work-buffer histories refill / update ONE array in place between evaluations (and refill the array handed to '
-        'set_density_matrix); model objects are re-used across states and a few configurations are replayed in reversed order.')
+        'set_density_matrix); model objects are re-used across states and a few configurations are replayed in reversed order. '
+        'Exact special states (exactly Bell, computational / |+>|+> product, maximally mixed, classically correlated, separable '
+        'boundary) are driven through the measures and the models; functions and model constructors are also called through '
+        'every documented form (keyword, positional in docstring order, defaults explicit / left out, numpy ints, dim as list / ndarray).')
 EXHAUSTIVE = {'quick': False, 'thorough': False}
 EXHAUSTIVE_DOMAINS = {'quick': [], 'thorough': []}
 ASSUMPTIONS = [
@@ -63,7 +66,8 @@ DECIDING = ['get_concurrence_2qubit', 'get_eof_2qubit', 'get_gme_2qubit', 'get_c
             'model/eof/bound', 'model/concurrence/bound', 'model/gme/bound', 'model/linear_entropy/bound',
             'model/eof/lbfgs-iterate', 'model/concurrence/lbfgs-iterate', 'model/gme/lbfgs-iterate', 'model/linear_entropy/lbfgs-iterate',
             'argument-unchanged', 'history/work-buffer', 'relation/layout', 'input/float64', 'input/complex128/not-c-contiguous',
-            'model/argument-buffer-refilled-after-set', 'model/replayed-in-other-order', 'model/reused-object']
+            'model/argument-buffer-refilled-after-set', 'model/replayed-in-other-order', 'model/reused-object', 'api-surface',
+            'input/exact-special-state']
 
 TOL_C = 1e-6        # concurrence-type values (sqrt of eigenvalues)
 C_ERR = 4e-8        # accuracy of a concurrence computed through square roots of eigenvalues that vanish to ~1e-16
@@ -558,6 +562,24 @@ def gen_special(rng, it):
     return 'two Bell states mixed (rank 2)', rotate(rng, T2.bell_diagonal([w[0], w[1], 0, 0]))
 
 
+def exact_states():
+    """exact special states (entries exactly 0, 1/2, 1/4, 1): (description, rho)"""
+    e = np.eye(4)
+    plus = np.full(4, 0.5)
+    out = [(f'exactly the Bell state {i}', T2.proj(T2.bell(i))) for i in range(4)]
+    out.append(('exactly the Bell state 0, float64 with entries 0 and 1/2', T2.proj(T2.bell(0)).real.copy() * 0 + np.array(
+        [[0.5, 0, 0, 0.5], [0, 0, 0, 0], [0, 0, 0, 0], [0.5, 0, 0, 0.5]])))
+    out += [(f'exactly the computational product state |{i:02b}>', np.outer(e[i], e[i]).astype(np.complex128)) for i in range(4)]
+    out.append(('exactly |+>|+> (all entries 1/4)', np.outer(plus, plus).astype(np.complex128)))
+    out.append(('exactly |0>|+>', np.outer(np.kron([1, 0], [1, 1]) / math.sqrt(2), np.kron([1, 0], [1, 1]) / math.sqrt(2)).astype(np.complex128)))
+    out.append(('exactly maximally mixed', np.eye(4, dtype=np.complex128) / 4))
+    out.append(('exactly maximally mixed, float64', np.eye(4) / 4))
+    out.append(('exactly |00><00|/2 + |11><11|/2 (classically correlated)', np.diag([0.5, 0, 0, 0.5]).astype(np.complex128)))
+    out.append(('exactly (|Phi+><Phi+| + |Psi+><Psi+|)/2 (separable boundary, rank 2)', (T2.proj(T2.bell(0)) + T2.proj(T2.bell(2))) / 2))
+    out.append(('exactly I/4 on one qubit times |0><0|', np.kron(np.eye(2) / 2, np.diag([1.0, 0.0])).astype(np.complex128)))
+    return out
+
+
 def nontrivial(rho):
     return RS.offdiag_max(rho) > 1e-6
 
@@ -634,6 +656,43 @@ def run(ctx, shard):
                     continue
                 ctx.check(ok, f'{fn}/layout-dependent', f'{fn} gives different values for the same matrix in another memory layout / dtype',
                           {'layout': tag, 'value': repr(vals[fn]), 'value_plain': repr(v2), 'rho': np.asarray(rho)}, point='relation/layout')
+
+    def api_surface(rho, dims):
+        """keyword vs positional, defaults passed explicitly, dim as list / ndarray / numpy ints: same answer as the plain call"""
+        dims = tuple(int(x) for x in dims)
+        forms = [list(dims), np.array(dims), tuple(np.int64(x) for x in dims)]
+        dalt = forms[int(rng.integers(3))]
+        groups = [('get_negativity', lambda: E.get_negativity(rho, dims),
+                   [('positional-call-differs-from-keyword-call', lambda: E.get_negativity(rho=rho, dim=dalt)),
+                    ('positional-call-differs-from-keyword-call', lambda: E.get_negativity(rho, dalt))])]
+        if dims == (2, 2):
+            groups += [('get_concurrence_2qubit', lambda: E.get_concurrence_2qubit(rho), [('positional-call-differs-from-keyword-call', lambda: E.get_concurrence_2qubit(rho=rho))]),
+                       ('get_eof_2qubit', lambda: E.get_eof_2qubit(rho), [('positional-call-differs-from-keyword-call', lambda: E.get_eof_2qubit(rho=rho))]),
+                       ('get_gme_2qubit', lambda: E.get_gme_2qubit(rho), [('positional-call-differs-from-keyword-call', lambda: E.get_gme_2qubit(rho=rho))])]
+        ev, evc = np.linalg.eigh(np.asarray(rho, dtype=np.complex128))
+        if ev[-1] > 1 - 1e-12:
+            psi = evc[:, -1].reshape(dims)
+            groups += [('get_eof_pure', lambda: E.get_eof_pure(psi),
+                        [('explicit-default-differs', lambda: E.get_eof_pure(psi, eps=1e-10)),
+                         ('positional-call-differs-from-keyword-call', lambda: E.get_eof_pure(psi, 1e-10)),
+                         ('positional-call-differs-from-keyword-call', lambda: E.get_eof_pure(psi=psi, eps=np.float64(1e-10)))]),
+                       ('get_concurrence_pure', lambda: E.get_concurrence_pure(psi),
+                        [('positional-call-differs-from-keyword-call', lambda: E.get_concurrence_pure(psi=psi))])]
+        for fn, base, variants in groups:
+            out = [None]
+            with ctx.guard(fn):
+                out[0] = base()
+            for key, thunk in variants:
+                got = [None]
+                with ctx.guard(fn):
+                    got[0] = thunk()
+                try:
+                    a, b = float(out[0]), float(got[0])
+                except Exception:
+                    continue
+                ctx.check(abs(a - b) <= 1e-12 or (a != a and b != b), f'{fn}/{key}',
+                          f'{fn}: the same question asked through another documented calling form gets another answer',
+                          {'dims': list(dims), 'plain_call': a, 'other_form': b, 'rho': np.asarray(rho)}, point='api-surface')
 
     def history(real, dims=(2, 2)):
         """work-buffer history: ONE array object is refilled / updated in place between evaluations; every evaluation must refer to the
@@ -715,11 +774,21 @@ def run(ctx, shard):
                     first = (desc, rho.copy())
                 ctx.workload('random' if part == 'generic' else 'corner')
                 measures(desc, rho)
+                if it % 5 == 2:
+                    ctx.set_case({'state': desc, 'dims': [2, 2], 'calling': 'api-surface variants'})
+                    api_surface(rho, (2, 2))
                 if it % 20 == 7:
                     history(real=bool((it // 20) % 2))
                 if it % 60 == 11:
                     history(real=False, dims=[(2, 3), (3, 2)][(it // 60) % 2])
             pure_history()
+            if part == 'special':  # exact special values inside the domain
+                for desc, rho in exact_states():
+                    ctx.workload('corner')
+                    measures(desc, rho, layouts=False)
+                    measures(desc + ', locally rotated', rotate(rng, rho))
+                    api_surface(rho, (2, 2))
+                    ctx.hit('input/exact-special-state')
             measures(first[0] + ' (first state of the shard again, at the end)', first[1], layouts=False)
             # pure-state functions on (dA, dB) coefficient matrices, negativity beyond two qubits
             for it in range(n // 2):
@@ -756,6 +825,8 @@ def run(ctx, shard):
                     rho = ginibre_state(rng, dA * dB, r)
                     measures(f'random rank {r}', rho, (dA, dB))
                     measures('pure ' + desc, T2.proj(psi.reshape(-1)), (dA, dB))
+                    if it % 3 == 0:
+                        api_surface(T2.proj(psi.reshape(-1)), (dA, dB))
         return
 
     # ------------------------------------------------------------------ models
@@ -787,6 +858,10 @@ def run(ctx, shard):
             return f'random rank {k + 1}' + (' (real, float64)' if real else ''), (2, 2), ginibre_state(rng, 4, k + 1, real), k + 1
         if k == 4:
             desc, rho = gen_special(rng, int(rng.integers(0, 10**6)))
+            if (it // 7) % 2 == 1:  # exact special values: exactly Bell / product / maximally mixed / boundary states
+                ex = exact_states()
+                desc, rho = ex[(it // 14) % len(ex)]
+                ctx.hit('model/exact-special-state')
         else:
             desc, rho = gen_generic(rng, int(rng.integers(4, 8)))
         ev = np.linalg.eigvalsh(rho)
@@ -850,6 +925,50 @@ def run(ctx, shard):
                     if dims == (2, 2):
                         gap = float(res.fun) - T2.closed_form(rho, kind)
                         ctx.extra.setdefault('final_gap_after_lbfgs', {}).setdefault(kind, []).append(round(gap, 12))
+
+    # API surface of the constructors: keyword / positional in docstring order / defaults left out (rank=None means full rank), same
+    # state and same parameter vector -> same loss
+    def construct_forms(dims, n_ens):
+        D = dims[0] * dims[1]
+        if kind == 'eof':
+            C = E.EntanglementFormationModel
+            return [C(dimA=dims[0], dimB=dims[1], num_term=n_ens, rank=D), C(dims[0], dims[1], n_ens, D), C(dims[0], dims[1], n_ens),
+                    C(np.int64(dims[0]), np.int64(dims[1]), np.int64(n_ens), rank=None)]
+        if kind == 'concurrence':
+            C = E.ConcurrenceModel
+            return [C(dimA=dims[0], dimB=dims[1], num_term=n_ens, rank=D), C(dims[0], dims[1], n_ens, D), C(dims[0], dims[1], n_ens),
+                    C(np.int64(dims[0]), np.int64(dims[1]), np.int64(n_ens), rank=None)]
+        if kind == 'gme':
+            C = E.DensityMatrixGMEModel
+            return [C(dim_list=list(dims), num_ensemble=n_ens, rank=D, CPrank=1, dtype='float64'), C(tuple(dims), n_ens, D, 1, 'float64'),
+                    C(list(dims), n_ens), C(np.array(dims), np.int64(n_ens), rank=None)]
+        C = E.DensityMatrixLinearEntropyModel
+        return [C(dim=tuple(dims), num_ensemble=n_ens, rank=D, kind='convex', method='polar'), C(list(dims), n_ens, D, 'convex', 'polar'),
+                C(tuple(dims), n_ens), C(np.array(dims), np.int64(n_ens), rank=None)]
+
+    for dims in [(2, 2), (2, 3), (3, 2)][:3 if ctx.tier != 'quick' else 2]:
+        D = dims[0] * dims[1]
+        n_ens = D + int(rng.integers(0, 3))
+        rho = ginibre_state(rng, D, D)
+        cfg = {'model': kind, 'dims': list(dims), 'rank': D, 'ensemble': n_ens, 'calling': 'constructor forms'}
+        ctx.set_case(cfg)
+        with ctx.guard(f'model/{kind}'):
+            models = construct_forms(dims, n_ens)
+            nparam = [sum(p.numel() for p in m.parameters()) for m in models]
+            ctx.check(len(set(nparam)) == 1, f'model/{kind}/constructor-forms-differ', f'{kind} model: keyword / positional / default-rank '
+                      'constructions have different parameter counts', {'nparam': nparam, 'dims': list(dims)}, point='api-surface')
+            if len(set(nparam)) == 1:
+                theta = rng.normal(size=nparam[0])
+                losses = []
+                for m in models:
+                    m.set_density_matrix(rho)
+                    numqi.optimize.set_model_flat_parameter(m, theta)
+                    with torch.no_grad():
+                        losses.append(float(m()))
+                keys = ['positional-call-differs-from-keyword-call', 'explicit-default-differs', 'explicit-default-differs']
+                for lv, key in zip(losses[1:], keys):
+                    ctx.check(abs(lv - losses[0]) <= 1e-10, f'model/{kind}/{key}', f'{kind} model: another documented way of constructing the '
+                              'same model gives another loss for the same state and parameters', {'losses': losses, 'dims': list(dims)}, point='api-surface')
 
     # call order: a few configurations again in the opposite order on fresh model objects ((3,2) before (2,3), rank 4 before rank 1),
     # and the very first configuration once more at the end of the process
